@@ -1,7 +1,7 @@
 (* C03 -- no NPU operation consumes memory that was not defined for it.
    Soundness of the def-use validator run on every emitted stream. Statements only. *)
 From Coq Require Import ZArith List Bool.
-From VV Require Import gen.GenTables hw.Npu hw.Defuse proofs.NpuProofs proofs.DefuseProofs.
+From VV Require Import gen.GenTables hw.Npu hw.Defuse hw.Inference proofs.NpuProofs proofs.DefuseProofs proofs.InferenceProofs.
 Import ListNotations.
 Open Scope Z_scope.
 
@@ -36,5 +36,41 @@ Theorem read_elements_defined :
     s (fv_region v) a = Some (elem_tag v i y x c).
 Proof. exact read_elements_defined_lemma. Qed.
 
+(* ---- the whole inference: the operator sequence of the output model over the tensor arena ---- *)
+
+(* acceptance implies the byte-level run over the operators of the output file: starting from the network inputs,
+   every byte of every arena tensor an operator (CPU or Ethos-U) consumes carries, at that moment, the identity of
+   that tensor; the last entry of the list demands the network outputs *)
+Theorem check_inference_sound :
+  forall hw init l,
+    check_inference hw init l = true ->
+    exists ops, top_ops hw 0 l = Some ops /\
+                sh_run (fold_left sh_write init empty_shadow) ops.
+Proof. exact check_inference_sound_lemma. Qed.
+
+(* the entry built for an Ethos-U custom operator demands its inputs, and tags its outputs only when every byte of
+   every output lies inside a write footprint of an operation of its command stream *)
+Theorem npu_top_op_spec :
+  forall hw evs b1 b2 k ins outs rs ws,
+    npu_top_op hw evs b1 b2 k ins outs = Some (rs, ws) ->
+    rs = ins /\ ws = clobbers k (arena_ivs b1 b2 (stream_writes hw evs)) ++ outs /\
+    forall rg lo hi t, In (rg, lo, hi, t) outs ->
+      rg = ARENA /\
+      forall a, lo <= a < hi ->
+        exists s iv, In s (stream_writes hw evs) /\ In iv (arena_iv b1 b2 s) /\ fst iv <= a < snd iv.
+Proof. exact npu_top_op_spec_lemma. Qed.
+
+(* every arena byte the stream of an Ethos-U operator writes carries afterwards that operator's scratch identity or
+   the identity of one of its outputs - whatever tensor lived there before is no longer readable by anybody *)
+Theorem stream_writes_retagged :
+  forall hw evs b1 b2 k outs (s : shadow) a,
+    (exists sg iv, In sg (stream_writes hw evs) /\ In iv (arena_iv b1 b2 sg) /\ fst iv <= a < snd iv) ->
+    exists t, fold_left sh_write (clobbers k (arena_ivs b1 b2 (stream_writes hw evs)) ++ outs) s ARENA a = Some t /\
+              (t = scratch_tag k \/ exists rg lo hi, In (rg, lo, hi, t) outs /\ rg = ARENA /\ lo <= a < hi).
+Proof. exact stream_writes_retagged_lemma. Qed.
+
 Print Assumptions check_defuse_sound.
+Print Assumptions check_inference_sound.
+Print Assumptions npu_top_op_spec.
+Print Assumptions stream_writes_retagged.
 Print Assumptions read_elements_defined.
